@@ -6,7 +6,13 @@ use ippref::WMsg;
 use vkit::gen::{self, G1Cfg};
 use vkit::rng::Rng;
 
-pub const HOSTILE: [&str; 9] = ["tails", "grid", "withlang", "tokens", "mutations", "bytes12", "chains", "pairs", "strings"];
+pub const HOSTILE: [&str; 10] = ["tails", "grid", "withlang", "tokens", "mutations", "bytes12", "chains", "pairs", "strings", "preambles"];
+/// what a peer speaking another protocol (or a proxy, or a broken framing layer) puts where the IPP header should be
+pub const PREAMBLES: [&[u8]; 36] = [
+    b"HTTP", b"HTTP/1.1 200 OK\r\n", b"HTTP/1.0 400 Bad Request\r\nContent-Type: text/html\r\n\r\n<html>", b"GET / HTTP/1.1\r\n", b"POST /ipp/print HTTP/1.1\r\n", b"PUT ", b"HEAD", b"OPTI", b"IPP/", b"ipp:", b"<htm", b"<?xm", b"<!DO", b"{\"er", b"%PDF-1.7", b"%!PS-Ado",
+    b"\x16\x03\x01\x02\x00\x01\x00\x01", b"\x16\x03\x03\x00", b"\x15\x03\x03\x00\x02\x02\x28", b"SSH-2.0-", b"220 prin", b"\xef\xbb\xbf\x01\x01\x00\x02", b"\xff\xfe\x01\x00", b"\x1f\x8b\x08\x00", b"PK\x03\x04", b"\x00\x00\x00\x00\x00\x00\x00\x00", b"\xff\xff\xff\xff\xff\xff\xff\xff",
+    b"1f\r\n\x01\x01\x00\x02", b"\r\n\x01\x01\x00\x02\x00\x00", b"0\r\n\r\n", b"\n\n\n\n\n\n\n\n", b"        ", b"\x01\x01", b"\x02\x00\x40\x29", b"RTSP/1.0", b"CONNECT ",
+];
 /// tags whose body is handed out as text
 pub const STRING_TAGS: [u8; 13] = [0x30, 0x35, 0x36, 0x41, 0x42, 0x44, 0x45, 0x46, 0x47, 0x48, 0x49, 0x4a, 0x13];
 /// names whose undecodable octets each expand to a 3-octet U+FFFD when decoded lossily (21846 x 3 > 65535)
@@ -103,6 +109,8 @@ impl Ctx {
             // every string of the generators' "tricky" dictionary under every text-like tag (also as the language / text parts of
             // the with-language syntaxes): displaying, re-encoding ... such values must not panic
             "strings" => (STRING_TAGS.len() * gen::TRICKY.len()) as u64,
+            // foreign-protocol preambles: as they are, padded to a full header, and followed by a well-formed attribute section
+            "preambles" => (PREAMBLES.len() * 3) as u64,
             "mutations" => {
                 if self.thorough() {
                     2_000_000
@@ -267,6 +275,31 @@ impl Ctx {
                 }
                 v.push(0x03);
                 (v, format!("pairs kind={kind} lengths=({l1},{l2})"))
+            }
+            "preambles" => {
+                let p = PREAMBLES[(idx as usize / 3) % PREAMBLES.len()];
+                let mut v = p.to_vec();
+                match idx % 3 {
+                    0 => {}
+                    1 => {
+                        while v.len() < 8 {
+                            v.push(b' ');
+                        }
+                    }
+                    _ => {
+                        v.truncate(8);
+                        while v.len() < 8 {
+                            v.push(0);
+                        }
+                        v.extend_from_slice(&[0x01, 0x47, 0x00, 0x12]);
+                        v.extend_from_slice(b"attributes-charset");
+                        v.extend_from_slice(&[0x00, 0x05]);
+                        v.extend_from_slice(b"utf-8");
+                        v.push(0x03);
+                        v.extend_from_slice(b"doc");
+                    }
+                }
+                (v, format!("preambles {:?} variant {}", String::from_utf8_lossy(&p[..p.len().min(12)]), idx % 3))
             }
             "strings" => {
                 let (tag, body) = strings_params(idx);
